@@ -172,6 +172,9 @@ Qed.
 (* ------------------------------------------------------------------------------------------ *)
 (** * the compact loop (tight, tight!) *)
 
+Lemma snd_split_mk0 u : snd (split (mk_amount u 0)) = 0.
+Proof. unfold mk_amount. rewrite split_mk by apply FPU_pos. reflexivity. Qed.
+
 Lemma compact_loop_mf gs0 fuel : forall gs amounts sel remaining wit out fidx gs' out' fidx',
   (snd (split remaining) <> 0 -> Rel gs0 gs) -> Forall (mfP gs0) out ->
   compact_loop fuel gs amounts sel remaining wit out fidx = Ok (gs', out', fidx') ->
@@ -206,13 +209,13 @@ Proof.
     destruct (N.eq_dec fr 0) as [Hz|Hz].
     + subst fr. unfold try_take_fraction in Ef. rewrite N.eqb_refl in Ef. inversion Ef; subst.
       eapply IH; [| |exact Hl]; auto.
-      intros X. exfalso. apply X. rewrite split_mk by apply FPU_pos. reflexivity.
+      intros X. exfalso. apply X. apply snd_split_mk0.
     + destruct (HR Hz _ _ Eg) as (g0 & Hg0 & Hf0 & Hi0).
       destruct (try_take_fraction_mf (mkGroup (skipn (nat_of (len (g_idx g))) (g_idx g)) (g_fr g)) g0 _ _ _ _ _ _ _ Hf0 Ef) as [(-> & -> & ->)|(-> & _ & Hidx & F & -> & HgF & HfF & Hm)].
       * eapply IH; [| |exact Hl]; auto. intros _.
         eapply Rel_set_at; eauto. cbn [g_idx]. apply incl_skipn.
       * eapply IH; [| |exact Hl].
-        -- intros X. exfalso. apply X. rewrite split_mk by apply FPU_pos. reflexivity.
+        -- intros X. exfalso. apply X. apply snd_split_mk0.
         -- apply Forall_app. split; auto. constructor; [|constructor]. eapply mf_ix_intro; eauto.
 Qed.
 
